@@ -11,10 +11,11 @@ namespace DryocVerif.Proofs.GenSimdText
 theorem simd_buffering_text_same_as_software :
     ∀ p ∈ Gen.SimdText.same_as_software, p.2 = true := by decide
 
-/-- … and the list covers the eleven functions -/
+/-- … and the list covers the eleven functions and the five items around them (constants, parameter block and its defaults, IV, the
+state's fields other than the chaining value) -/
 theorem simd_buffering_text_covers :
     Gen.SimdText.same_as_software.map Prod.fst =
       ["increment_counter", "init", "update", "finalize", "hash", "longhash", "set_lastnode", "is_lastblock", "set_lastblock",
-       "init_param", "init0"] := by decide
+       "init_param", "init0", "consts", "struct_Params", "default_Params", "IV", "struct_State"] := by decide
 
 end DryocVerif.Proofs.GenSimdText
